@@ -287,6 +287,106 @@ def run_parked(ctx, case, rng):
 
 
 # ---------------------------------------------------------------------------
+PAYLOADS = ("bytes", "bytearray", "memoryview", "ascii-str", "nonascii-str")
+SIZECLASS = ("one-chunk", "many-chunks", "window-limited")
+ALPHABET = "a\u00e9\u4e2d\U0001f600\u07ff\u0800z"  # 1-, 2-, 3- and 4-byte UTF-8 encodings
+
+
+def make_payload(kind, n, seed):
+    r = random.Random("pl/%s" % seed)
+    if kind == "nonascii-str":
+        txt = "".join(r.choice(ALPHABET) for _ in range(n))
+        return txt, txt.encode("utf-8")
+    if kind == "ascii-str":
+        txt = "".join(r.choice("abcXYZ 019") for _ in range(n))
+        return txt, txt.encode("ascii")
+    b = r.randbytes(n)
+    return (b if kind == "bytes" else bytearray(b) if kind == "bytearray" else memoryview(b)), b
+
+
+def run_payload(ctx, case, rng):
+    """The peer must receive exactly the bytes of the payload (s.encode('utf-8') for text), whatever the payload type,
+    also when it spans many chunks or is cut by the free window; both with sendall and with the documented loop
+    `while s: n = ch.send(s); s = s[n:]`."""
+    role = case["role"]
+    small = case["sizeclass"] == "window-limited"
+    skw = dict(default_window_size=SMALL_WINDOW) if (small and role == "c") else {}
+    p = pair.Pair(rng=rng, server_kw=skw)
+    cm.watch(p.tc, p.rec, "c")
+    cm.watch(p.ts, p.rec, "s")
+    try:
+        if not p.start() or not p.auth():
+            ctx.inconclusive("handshake failed (payload stratum)")
+            return
+        cm.diverge_ids(p, rng)
+        c, s = p.session(window_size=SMALL_WINDOW if (small and role == "s") else None)
+        x, y = (c, s) if role == "c" else (s, c)
+        n = dict([("one-chunk", 900), ("many-chunks", 90000), ("window-limited", 120000)])[case["sizeclass"]]
+        payload, expect = make_payload(case["payload"], n, case["seed"])
+        stderr = case["api"].endswith("stderr")
+        rd = cm.PollReader(y, rng.getrandbits(32), 700 if small else 40000, keep=True).start()
+        x.settimeout(60)
+        res = {}
+
+        def call():
+            try:
+                if case["api"].startswith("sendall"):
+                    getattr(x, case["api"])(payload)
+                else:
+                    sfn = x.send_stderr if stderr else x.send
+                    rest = payload
+                    rounds = 0
+                    while len(rest):
+                        k = sfn(rest)
+                        if k <= 0:
+                            res["outcome"] = "send returned %d" % k
+                            return
+                        rest = rest[k:]  # the documented idiom
+                        rounds += 1
+                    res["rounds"] = rounds
+                res["outcome"] = "returned"
+            except BaseException as e:
+                res["outcome"] = "raised:" + type(e).__name__
+                res["exc"] = repr(e)
+
+        t = threading.Thread(target=call, daemon=True, name="sendall")
+        t.start()
+        wait_call(t, p, 120)
+        key = "err" if stderr else "out"
+        pair.wait_for(lambda: rd.got[key] >= len(expect), 20, 0.002)
+        p.wait_quiet(0.1, 10)
+        rd.settle()
+        rd.stop()
+        if t.is_alive():
+            ctx.inconclusive("payload call still running: %s" % case)
+            return
+        got = bytes(rd.data[key])
+        ctx.count("payload_cases")
+        ctx.count("payload_cases_" + case["payload"].replace("-", "_"))
+        if res.get("rounds", 0) > 1 or case["sizeclass"] != "one-chunk":
+            ctx.count("payload_cases_spanning_chunks")
+        desc = dict(case=case, outcome=res.get("outcome"), exc=res.get("exc"), received=len(got), expected=len(expect))
+        if res.get("outcome") != "returned":
+            ctx.violation("%s of a %s payload failed on an open channel (%s)" % (case["api"], case["payload"], str(res.get("outcome")).split(":")[-1]),
+                          "the call did not deliver: %s" % res, desc)
+        elif got != expect:
+            d = cm.first_diff(got, expect)
+            kind = "short" if len(got) < len(expect) else "long" if len(got) > len(expect) else "altered"
+            ctx.violation("%s payload delivered %s (%s, %s)" % (case["payload"], kind, "sendall" if case["api"].startswith("sendall") else "send loop", case["sizeclass"]),
+                          "peer received %d bytes, payload encodes to %d; first difference at %d" % (len(got), len(expect), d), desc)
+        else:
+            ctx.count("payloads_delivered_exactly")
+        # observation for C19 (not judged here): text is measured in characters but sent as UTF-8 bytes
+        side = role
+        pk = x.out_max_packet_size
+        big = [1 for e in p.msgs(side, "out", (cm.DATA, cm.EXT)) if cm.parse(e["payload"])["len"] > pk]
+        if big:
+            ctx.count("unjudged_data_msgs_longer_than_peer_max_packet", len(big))
+    finally:
+        p.close()
+
+
+# ---------------------------------------------------------------------------
 FLOOR_SIZES = (0, 1, 32, 63, 64, 65, 100, 4095)
 
 
@@ -594,6 +694,15 @@ def run(ctx):
         if ctx.mine(i):
             ctx.guard(run_parked, ctx, case, rng)
             ctx.case(tuple(sorted(case.items())), sample=case if i < 8 else None)
+    cells = [dict(kind="payload-type-cell", payload=pl, sizeclass=sc, api=api, role=role, seed="%s/%s/%s" % (pl, sc, api))
+             for pl in PAYLOADS for sc in SIZECLASS for api in ("sendall", "send", "sendall_stderr", "send_stderr") for role in "cs"]
+    if ctx.quick:
+        cells = [cse for j, cse in enumerate(cells)
+                 if (bin(j).count("1") % 2 == ctx.seed % 2 if cse["payload"] == "nonascii-str" else (j * 7 + j // 8) % 4 == ctx.seed % 4)]
+    for i, case in enumerate(cells):
+        if ctx.mine(i):
+            ctx.guard(run_payload, ctx, case, rng)
+            ctx.case(tuple(sorted(case.items())), sample=case if i < 8 else None)
     floor = [dict(kind="peer-max-packet-below-floor", role=role, pkt=pkt, api=api, size=size)
              for pkt in FLOOR_SIZES for role in ("client", "server") for api in APIS for size in (1, 9000)]
     if ctx.quick:
@@ -620,6 +729,10 @@ def run(ctx):
     ctx.require("timed_cases_run", 6)
     ctx.require("parked_writer_cases", 10)
     ctx.require("adjust_processed_before_writer_reacquired_lock", 8)
+    ctx.require("payload_cases", 28)
+    ctx.require("payload_cases_nonascii_str", 8)
+    ctx.require("payload_cases_spanning_chunks", 16)
+    ctx.require("payloads_delivered_exactly", 28)
     ctx.require("sub_floor_packet_cases", 24)
     ctx.require("sub_floor_calls_delivered", 24)
     ctx.require("sub_floor_data_msgs", 40)
